@@ -445,3 +445,50 @@ class C04(Check):
         return {'ill_posed_lines_excluded_by_predicate': getattr(self, 'excluded', 0),
                 'documented_examples': 'SingleProcessor.py=99 and BufferExample.py=10079 checked under two deterministic tie '
                                        'policies (conformance runs, not exhaustive)'}
+
+
+@check
+class C14(Check):
+    prop = 'C14'
+    technique = ('explicit-state model checking of the real implementation for the split-run clause (one-step bisimulation at '
+                 'every explored split point, all tie-break orders, state matching); exhaustive enumeration of executor '
+                 'completion orders for simulate_multiple_times; enumerated seed x id-offset grid with the real random '
+                 'tie-breaks for the same-seed clause')
+    rule = ('(a) split runs: on FAN, MAINT, RES, GATE, BUDGET and BATCH lines every quiescent point (strictly between two instants '
+            'and last of an instant) x every tie-break order x <=K injected operations: the state one event after "split + '
+            'resume" equals the state one event after no split, for every event that can be dispatched next (by state matching '
+            'this extends to whole evolutions); the split emulation itself is validated against real consecutive simulate() '
+            'calls; (b) same seed: 4 models (fan-in, two sources merging into one machine, maintenance with failures, shared '
+            'resource) x seeds 0..7 x asset-id offsets 0/1/7 x 2 repetitions, real RNG, compared after id '
+            'normalisation; two fresh interpreters with different PYTHONHASHSEED; (c) simulate_multiple_times: n=1..4 x '
+            'max_processes 0/1/2/3/None with a controllable executor completing the futures in every permutation, result i = '
+            'system of index i = in-process result; real process pools for n=3 as conformance only')
+    level_text = ('Exhaustive over split points, tie-break orders and executor completion orders within the stated bounds; the '
+                  'same-seed clause is an enumerated grid of real runs (seeds are data, not schedules: every seed cannot be '
+                  'enumerated); scheduling of real OS worker processes cannot be enumerated by this technique and is only sampled.')
+    level_note = ('Bounded as stated in the rule; the OS scheduling of real worker processes and the space of all seeds are outside '
+                  'what can be enumerated; trusted: harness, canonicaliser, CPython.')
+
+    def nontrivial(self, r):
+        f = r.get('facts', {})
+        return any(f.get(k, 0) > 0 for k in ('split_point_compared', 'seeds_give_different_outcomes',
+                                               'completion_orders_enumerated', 'fresh_interpreters_compared',
+                                               'real_pools_conformance_only'))
+
+    def jobs(self, tier):
+        from .repro import repro_job
+        th = tier != 'quick'
+        K = 1 if not th else 2
+        specs = [S.with_splits(x) for x in (S.FAN(K), S.MAINT(K), S.RES(K), S.GATE(K), S.BUDGET(K), S.BATCH(K),
+                                            S.MAINT(K + 1, n=1, horizon=4), S.SCHED_BLOCK(K), S.SENS(K, horizon=4))]
+        if th:
+            specs += [S.with_splits(S.FAN(1), 2), S.with_splits(S.RES(1, horizon=4), 2)]
+        jobs = _line_jobs(specs, ['splitinv', 'census', 'shutdown', 'cycle', 'schedule', 'sensors'], tier)
+        seeds = list(range(8 if not th else 24))
+        for model in ('fan', 'merge', 'maint', 'res'):
+            jobs.append(repro_job(f'SEED[{model}]', 'seed', model, seeds=seeds, offsets=[0, 1, 7], horizon=8))
+            jobs.append(repro_job(f'SMT[{model}]', 'smt', model, ns=[1, 2, 3, 4], max_processes=[0, 1, 2, 3, None], horizon=6))
+        jobs.append(repro_job('HASH[merge]', 'hash', 'merge', seeds=[3], hashseeds=[1, 2, 77], horizon=8))
+        jobs.append(repro_job('HASH[maint]', 'hash', 'maint', seeds=[3], hashseeds=[1, 2], horizon=8))
+        jobs.append(repro_job('POOL[merge]', 'pool', 'merge', ns=[3], max_processes=[1, 2, None] if th else [2], horizon=6))
+        return jobs
